@@ -14,6 +14,7 @@ import QtyModel.TypingSpec
 import QtyModel.Spec.Temperature
 import QtyModel.Generated.TempTable
 import QtyModel.TempRows
+import QtyModel.F64Text
 /-
   Line-protocol driver.
 
@@ -230,6 +231,8 @@ structure AmtSer (A : Type) where
 structure AmtText (A : Type) where
   /-- text of `|a|` under an optional precision, where the model can compute it (decimal) -/
   absText : Option (Option Nat → A → Text)
+  /-- signed text of the amount type's own `Display` under an optional precision -/
+  fullText : Option (Option Nat → A → Text) := none
 
 section run
 variable {A : Type} (R : Arith A) (C : Codec A) (M : ErrModel) (W : World A) (AT : AmtText A) (AS : AmtSer A)
@@ -876,6 +879,16 @@ def step (line impl : String) : String × Verdict :=
             if unitOracle then refV.and unitV else magV
       (out, v)
     | _, _, _, _, _, _, _ => bad
+  | ["ftxt", a, p] =>
+    -- the amount type's own Display: for binary64 the model computes the digits itself (`F64Text.lean`)
+    match C.parse a, AT.fullText with
+    | some a, some f =>
+      let prec : Option Nat := p.toNat?
+      if p != "-" && prec.isNone then bad else
+      let out := "h" ++ hexOfText (f prec a)
+      (out, check (impl == out) "text of the amount differs from the model of the amount type's Display")
+    | some _, none => (impl, .skip "no text model for this amount type")
+    | none, _ => bad
   | ["asq", t, i] =>
     match W.find t, i.toNat? with
     | some _, some i =>
@@ -1009,6 +1022,18 @@ def frontLine (d : QtyDef) : String :=
   s!"ok {Text.toString d.name} ref={o d.refIdent} derived={der}{String.join units} # {"; ".intercalate (frontImpls d)} # consts {consts} # variants {variants} # arms {arms}"
 
 
+/-- the amount text `Quantity::fmt` builds in the binary64 configuration: `Display` (with the optional
+precision) of `if amount >= 0 { amount } else { -amount }` — NOT of `|amount|`: `-0.0 >= 0` holds, so a negative
+zero keeps its sign (`-0`), and `NaN >= 0` does not, so NaN is negated (and still prints `NaN`).  The digits are
+computed by the model (`QtyModel/F64Text.lean`: shortest round-trip digits / exact expansion rounded half-even,
+`Props/C15F64.lean`), not taken from std. -/
+def f64AmountText (prec : Option Nat) (a : F64) : Text :=
+  let b : F64 := if F64.arith.ge a F64.arith.zero then a else
+    (match F64.arith.neg a with
+     | .ok n => n
+     | .error _ => a)
+  F64.text prec b
+
 def runWith {A} (R : Arith A) (C : Codec A) (M : ErrModel) (AT : AmtText A) (AS : AmtSer A) (isF64 : Bool) (args : List String) : IO UInt32 := do
   let custom ← match args with
     | ["dumpf", f] => pure (some (parseItems (← IO.FS.lines f).toList))
@@ -1095,8 +1120,8 @@ def runWith {A} (R : Arith A) (C : Codec A) (M : ErrModel) (AT : AmtText A) (AS 
 
 def main (args : List String) : IO UInt32 :=
   match args with
-  | "f64" :: rest => runWith F64.arith f64Codec ErrModel.f64 ⟨none⟩ ⟨none⟩ true rest
-  | "dec" :: rest => runWith Dec.arith decCodec ErrModel.dec ⟨some Fmt.decAbsText⟩ ⟨some (fun d => .str (Serde.decText d))⟩ false rest
+  | "f64" :: rest => runWith F64.arith f64Codec ErrModel.f64 ⟨some f64AmountText, some F64.text⟩ ⟨none⟩ true rest
+  | "dec" :: rest => runWith Dec.arith decCodec ErrModel.dec ⟨some Fmt.decAbsText, none⟩ ⟨some (fun d => .str (Serde.decText d))⟩ false rest
   | _ => do
     IO.eprintln "usage: driver <f64|dec> ..."
     return 2
